@@ -14,13 +14,16 @@ import (
 	"github.com/bufbuild/buf/private/bufpkg/bufcheck"
 	"github.com/bufbuild/buf/private/bufpkg/bufconfig"
 	"github.com/bufbuild/buf/private/bufpkg/bufimage"
+	"github.com/bufbuild/buf/private/bufpkg/bufimage/bufimageutil"
 	"github.com/bufbuild/buf/private/bufpkg/bufmodule"
 	"github.com/bufbuild/buf/private/bufpkg/bufplugin"
 	"github.com/bufbuild/buf/private/gen/data/datawkt"
+	"github.com/bufbuild/buf/private/pkg/protoencoding"
 	"github.com/bufbuild/buf/private/pkg/slogext"
 	"github.com/bufbuild/buf/private/pkg/storage"
 	"github.com/bufbuild/buf/private/pkg/wasm"
 	"google.golang.org/protobuf/reflect/protoreflect"
+	"google.golang.org/protobuf/types/descriptorpb"
 )
 
 type protoFile = protoreflect.FileDescriptor
@@ -89,6 +92,28 @@ func (m *bsim) moreOutputs(ctx context.Context, moduleSet bufmodule.ModuleSet, i
 		fmt.Fprintf(&dg, "%s %s\n", moduleLabel(mod), d.String())
 	}
 	res.outputs["digests"] = dg.String()
+
+	// the image filtered down to some types (buf build --type ...), listed in this execution's order
+	if len(m.filterTypes) > 0 {
+		types := m.permuted("filtertypes", m.filterTypes)
+		filtered, err := bufimageutil.FilterImage(image, bufimageutil.WithIncludeTypes(types...))
+		if err != nil {
+			return fmt.Errorf("filter %v: %w", types, err)
+		}
+		protoFiltered, err := bufimage.ImageToProtoImage(filtered)
+		if err != nil {
+			return fmt.Errorf("filter: %w", err)
+		}
+		data, err := protoencoding.NewWireMarshaler().Marshal(protoFiltered)
+		if err != nil {
+			return fmt.Errorf("filter: %w", err)
+		}
+		var names []string
+		for _, f := range filtered.Files() {
+			names = append(names, f.Path())
+		}
+		res.outputs["filtered-image"] = strings.Join(names, ",") + "\n" + string(data)
+	}
 
 	// lint
 	client, err := bufcheck.NewClient(slogext.NopLogger, bufcheck.NewLocalRunnerProvider(wasm.UnimplementedRuntime, bufplugin.NopPluginKeyProvider, bufplugin.NopPluginDataProvider))
@@ -186,4 +211,76 @@ func (m *bsim) permuted(label string, xs []string) []string {
 // ruleLists returns the lint use / except lists of this case in this execution's listing order.
 func (m *bsim) ruleLists() ([]string, []string) {
 	return m.permuted("lintuse", m.lintUse), m.permuted("lintexcept", m.lintExcept)
+}
+
+// drawFilterTypes picks the --type arguments from the targeted files (reference descriptors): some
+// messages (also nested ones), enums, services and methods; often an element together with
+// something nested in it.
+func (m *bsim) drawFilterTypes(ref map[string]*descriptorpb.FileDescriptorProto) []string {
+	type pair struct{ parent, child string }
+	var all []string
+	var pairs []pair
+	var walk func(prefix string, msgs []*descriptorpb.DescriptorProto)
+	walk = func(prefix string, msgs []*descriptorpb.DescriptorProto) {
+		for _, msg := range msgs {
+			if msg.GetOptions().GetMapEntry() {
+				continue
+			}
+			name := prefix + msg.GetName()
+			all = append(all, name)
+			for _, n := range msg.GetNestedType() {
+				if !n.GetOptions().GetMapEntry() {
+					pairs = append(pairs, pair{name, name + "." + n.GetName()})
+				}
+			}
+			for _, e := range msg.GetEnumType() {
+				pairs = append(pairs, pair{name, name + "." + e.GetName()})
+			}
+			walk(name+".", msg.GetNestedType())
+		}
+	}
+	targets := append([]string(nil), m.ws.Targets()...)
+	sort.Strings(targets)
+	for _, p := range targets {
+		fd := ref[p]
+		if fd == nil {
+			continue
+		}
+		prefix := ""
+		if fd.GetPackage() != "" {
+			prefix = fd.GetPackage() + "."
+		}
+		walk(prefix, fd.GetMessageType())
+		for _, e := range fd.GetEnumType() {
+			all = append(all, prefix+e.GetName())
+		}
+		for _, svc := range fd.GetService() {
+			all = append(all, prefix+svc.GetName())
+			for _, method := range svc.GetMethod() {
+				pairs = append(pairs, pair{prefix + svc.GetName(), prefix + svc.GetName() + "." + method.GetName()})
+			}
+		}
+	}
+	if len(all) == 0 || m.tp.Draw("filter?", 4) == 0 {
+		return nil
+	}
+	seen := map[string]bool{}
+	var out []string
+	add := func(s string) {
+		if !seen[s] {
+			seen[s] = true
+			out = append(out, s)
+		}
+	}
+	if len(pairs) > 0 && m.tp.Draw("filterpair", 3) != 0 {
+		pr := pairs[m.tp.Draw("filterpairidx", len(pairs))]
+		add(pr.parent)
+		add(pr.child)
+		m.s.Probe("filter-element-and-nested")
+	}
+	for k := m.tp.Draw("filtern", 3); k > 0 || len(out) == 0; k-- {
+		add(all[m.tp.Draw("filtertype", len(all))])
+	}
+	sort.Strings(out)
+	return out
 }
